@@ -40,6 +40,11 @@ class Ctx:
         b = self.prog.resolve_fn(key)
         if b is None:
             b = self.prog.prog.get(key)
+        if b is None and '::' in key and not key.startswith('<'):
+            ty, meth = key.rsplit('::', 1)
+            hits = [bb for k, bb in self.prog.keys.items() if k.startswith('<%s as ' % ty) and k.endswith('>::' + meth)]
+            if len(hits) == 1:
+                b = hits[0]
         if b is None:
             raise Inconclusive('body not found in MIR dump: ' + key)
         return b
